@@ -232,12 +232,16 @@ Definition service_of (e : endpoint) : service :=
 
 (* what a caller asks *)
 Inductive question :=
-| QSession (e : endpoint) (s : session)                     (* validate / refresh / revoke: by the caller's own session *)
+| QSession (e : endpoint) (s : session) (allowed : list str)
+    (* validate / refresh / revoke: by the caller's own session. [allowed] is the allowedGroups
+       argument of the proxy's ValidateSessionState / RefreshSession (proxy :97, :116); the auth
+       methods have no such argument ([]). It is part of what is asked — the inner provider's
+       answer depends on it (sso.go:264-281, 371-394) — but NOT of the key. *)
 | QGroups (e : endpoint) (email : str) (groups : list str)  (* UserGroups / ValidateGroupMembership *)
 | QToken (e : endpoint) (refresh_token : str).              (* RefreshAccessToken *)
 
 Definition q_endpoint (q : question) : endpoint :=
-  match q with QSession e _ => e | QGroups e _ _ => e | QToken e _ => e end.
+  match q with QSession e _ _ => e | QGroups e _ _ => e | QToken e _ => e end.
 
 (* which token a session-keyed endpoint uses: the refresh token for the refresh methods
    (proxy :117, auth :105), the access token otherwise (proxy :98, auth :81, :141) *)
@@ -251,7 +255,7 @@ Definition groups_key (email : str) (groups : list str) : str :=
 
 Definition sub_key (q : question) : str :=
   match q with
-  | QSession e s => session_token e s
+  | QSession e s _ => session_token e s
   | QGroups _ email groups => groups_key email groups
   | QToken _ tok => tok
   end.
@@ -265,9 +269,16 @@ Inductive subject :=
 | SubjGroups (ep : str) (email : str) (sorted_groups : list str).
 Definition subject_of (q : question) : subject :=
   match q with
-  | QSession e s => SubjToken (endpoint_name e) (session_token e s)
+  | QSession e s _ => SubjToken (endpoint_name e) (session_token e s)
   | QGroups e email groups => SubjGroups (endpoint_name e) email (sort_strs groups)
   | QToken e tok => SubjToken (endpoint_name e) tok
+  end.
+
+(* the group set a session-keyed proxy question asks about (as a set: sorted) *)
+Definition allowed_of (q : question) : list str :=
+  match q with
+  | QSession PValidate _ al | QSession PRefresh _ al => sort_strs al
+  | _ => []
   end.
 
 (* the guard under which the groups key is injective *)
@@ -300,7 +311,7 @@ Record wstate := mkW {
 Definition winit : wstate := mkW init [] [].
 
 Definition q_session (q : question) : option session :=
-  match q with QSession _ s => Some s | _ => None end.
+  match q with QSession _ s _ => Some s | _ => None end.
 
 Definition wstep (w : wstate) (e : wevent) : option wstate :=
   match e with
@@ -343,3 +354,50 @@ Definition erase (e : wevent) : event result :=
 
 Definition wsession (w : wstate) (t : tid) : option session := alookup Nat.eqb t (w_sess w).
 Definition wquestion (w : wstate) (t : tid) : option question := alookup Nat.eqb t (w_q w).
+
+(* ---------- several wrapper objects ----------
+   proxy.New builds one SingleFlightProvider per upstream (proxy.go:30-38 -> options.go:162-193),
+   auth's options build one per configured provider (auth/options.go:43-72); each constructor
+   allocates its own &singleflight.Group{} (proxy middleware :45-51, auth :45-50). So a deployment
+   is a family of independent wrapper LTSs: an event happens at one wrapper object and touches
+   only that object's group. *)
+Definition mevent := (nat * wevent)%type.
+Definition mstate := list (nat * wstate).
+Definition component (m : mstate) (a : nat) : wstate :=
+  match alookup Nat.eqb a m with Some w => w | None => winit end.
+Definition mstep (m : mstate) (e : mevent) : option mstate :=
+  match wstep (component m (fst e)) (snd e) with
+  | Some w' => Some ((fst e, w') :: m)
+  | None => None
+  end.
+Fixpoint mrun (m : mstate) (tr : list mevent) : option mstate :=
+  match tr with
+  | [] => Some m
+  | e :: tr' => match mstep m e with Some m' => mrun m' tr' | None => None end
+  end.
+Definition mreach (tr : list mevent) (m : mstate) : Prop := mrun [] tr = Some m.
+
+(* the events that happened at wrapper object a *)
+Fixpoint project (a : nat) (tr : list mevent) : list wevent :=
+  match tr with
+  | [] => []
+  | (b, e) :: tr' => if Nat.eqb b a then e :: project a tr' else project a tr'
+  end.
+
+(* ---------- the execution log ----------
+   What an inner provider (or fn) sees: an execution begins when a caller that created a call runs
+   fn, and ends when fn returns. *)
+Inductive logev := LBegin (t : tid) | LEnd (t : tid).
+
+Definition log_of {R} (s' : state R) (e : event R) : list logev :=
+  match e with
+  | Enter t _ => match thread s' t with Some Leading => [LBegin t] | _ => [] end
+  | FnReturn t _ => [LEnd t]
+  | _ => []
+  end.
+
+Fixpoint run_log {R} (s : state R) (acc : list logev) (tr : list (event R)) : option (state R * list logev) :=
+  match tr with
+  | [] => Some (s, acc)
+  | e :: tr' => match step s e with Some s' => run_log s' (acc ++ log_of s' e) tr' | None => None end
+  end.
